@@ -68,3 +68,12 @@ func vNewFS(script []byte) *vfs.FS {
 	fsys.Env["PATH"] = "/bin"
 	return fsys
 }
+
+// fsys_MkdirRO creates a read-only directory holding one file in the model.
+func fsys_MkdirRO(path string) error {
+	f := vfs.Cur
+	f.MkdirAllP(path)
+	f.PutFile(path+"/inner.txt", []byte("x"), 1)
+	f.Nodes[path].Mode = f.Nodes[path].Mode&^0o777 | 0o555
+	return nil
+}
